@@ -29,6 +29,15 @@ waits - visibly to the scheduler - until the stores its next call names exist, a
 direction, a peer that existed before, non-default constructor options; thorough: a three-store ring built by three
 threads). Whatever the constructor sets up for the two-lock section is thereby exercised under every interleaving of
 two constructors; the sequential reference constructs the stores in each order.
+Family W puts a third thread that works on ONE of the two stores next to two transfers between them (opposite / same
+direction, both creation orders): one of the two locks can then be held by a thread that never asks for the other.
+Library state: every harness exists in two variants, "warm" (the process - and every forked worker - has long created
+other stores, as in any long-running program) and `...@fresh` (the harness's stores are the very FIRST objects the
+library creates after being imported: module-level counters, registries and caches are in their initial state, so the
+first / n-th created object is the one under test). A fresh run executes every schedule and every sequential
+reference order in a fork of a server process that has just re-imported the library and constructed nothing
+(common.fresh_call); the oracle is the same. The core two-store families (transfer || transfer pairs of P in both
+creation orders, S5 / S5r, K, W) run from both states in the quick tier, every two-store harness in the thorough tier.
 Not asserted (counted and noted instead): getters are lock-free single reads, so a value *read*
 concurrently with a multi-write mutator may be an intermediate one; `apply_debt_interest` is not
 one of the operations the statement lists and is unsynchronised in the code.
@@ -50,6 +59,17 @@ from operon_ai.state.metabolism import ATP_Store, EnergyType
 ET = {"ATP": EnergyType.ATP, "GTP": EnergyType.GTP, "NADH": EnergyType.NADH}
 TRACE = (metab.__file__,)
 GETTERS = ("get", "report")
+
+
+def rebind_library():
+    """called by common.fresh_call's server after it re-imported the library: this module's names for library
+    objects must be those of the freshly imported modules"""
+    global metab, ATP_Store, EnergyType, ET, TRACE
+    import operon_ai.state.metabolism as m
+    metab, ATP_Store, EnergyType = m, m.ATP_Store, m.EnergyType
+    ET = {"ATP": EnergyType.ATP, "GTP": EnergyType.GTP, "NADH": EnergyType.NADH}
+    TRACE = (m.__file__,)
+
 
 # harness = (store configs {name: (budget,gtp,nadh,max_debt[,options])}, threads [[op,...],...])
 #   options: silent (default True), cb (True: record on_state_change notifications; "raise": record, then raise
@@ -275,6 +295,56 @@ for _t in itertools.combinations_with_replacement(T_KINDS, 3):
     SETUP[_n] = PAIR_SETUP
     TRIPLES.append(_n)
 
+# --- W: two transfers between the same two stores (opposite / same direction) next to a third thread that works on
+# ONE of the two stores (so one of the two locks can be held by somebody who never wants the other one), under both
+# creation orders of the stores
+# stores after SETUP: A = atp 2/4, nadh 1/1 ; B = atp 2/4, nadh 1/1
+W_CFG = {"A": (4, 0, 1, 0), "B": (4, 0, 1, 0)}
+W_SETUP = [("consume", "A", 2, "ATP", False), ("consume", "B", 2, "ATP", False)]
+_W_TWO = {"opposite": [[("transfer", "A", "B", 2, "ATP")], [("transfer", "B", "A", 2, "ATP")]],
+          "same": [[("transfer", "A", "B", 1, "ATP")], [("transfer", "A", "B", 2, "ATP")]]}
+_W_THIRD = {"convert-A": [("convert", "A", 1)], "convert-B": [("convert", "B", 1)]}  # converts iff the store is not full
+WTRIPLES = []
+for _k, _two in _W_TWO.items():
+    for _j, _third in _W_THIRD.items():
+        for _suffix, _extra in (("", {}), ("@r", {"order": REVERSED})):
+            _n = f"W:{_k}|{_j}{_suffix}"
+            H[_n] = (W_CFG, _two + [_third])
+            SETUP[_n] = W_SETUP
+            if _extra:
+                OPTS[_n] = dict(_extra)
+            WTRIPLES.append(_n)
+
+# --- library state: "warm" (the process has long created other stores: every harness above) and "fresh"
+# (`...@fresh`: the harness's stores are the very first objects the library creates after being imported - whatever
+# module-level counters / registries / caches the library keeps are in their initial state; every schedule and every
+# sequential reference run starts from that state again, see common.fresh_call). Same harness, same oracle.
+FRESH = "@fresh"
+
+
+def fresh_of(names):
+    out = []
+    for n in names:
+        f = n + FRESH
+        if f not in H:
+            H[f] = H[n]
+            if n in SETUP:
+                SETUP[f] = SETUP[n]
+            OPTS[f] = {**OPTS.get(n, {}), "fresh": n}
+        out.append(f)
+    return out
+
+
+def two_store(name):
+    """does some call of the harness work on two different stores, or is a store constructed inside a thread?"""
+    return any(op[0] == "construct" or (op[0] == "transfer" and op[1] != op[2]) for t in H[name][1] for op in t)
+
+
+def xfer_pair(name):
+    """do at least two threads work on two different stores?"""
+    return sum(any(op[0] == "transfer" and op[1] != op[2] for op in t) for t in H[name][1]) >= 2
+
+
 QUICK = ["S1-consume-consume", "S2-consume-regenerate", "S3-topup-convert", "S4-debt-debt", "S5-opposite-transfers",
          "S6-transfer-consume", "S7-three-threads", "S8-transfer-vs-two-consumes", "S13-two-agents-express",
          "S5r-opposite-transfers-ranks-reversed", "S10-self-transfer-and-regen", "R0-underfunded-ring",
@@ -283,14 +353,27 @@ OPCODE = ["S1-consume-consume", "S2-consume-regenerate", "S4-debt-debt", "S6-tra
 RINGS = [n for n in H if n.startswith("R")]
 
 
+BASE = list(H)  # every harness, warm
+fresh_of(BASE)  # ... and its fresh-state variant (the plan picks)
+
+
 def plan(tier):
-    """[(harness, preemption bound)] at line granularity. quick: bound 2, except the wide G and E families at bound 1
-    (one preemption = one thread stopped anywhere inside its call while the other runs its call to the end);
-    thorough: bound 3, except the G and E families and the three-thread rings (R*, K3) and triples at bound 2."""
+    """[(harness, preemption bound)] at line granularity (+ the lock-acquisition points, see CoopLock).
+    quick, warm: bound 2, except the wide G and E families and the three-thread W family at bound 1 (one preemption =
+    one thread stopped anywhere inside its call while the others run their calls to the end);
+    quick, fresh library state: every transfer || transfer pair of the P family (both creation orders) at bound 2;
+    S5 / S5r, the K family and the opposite-direction W harnesses at bound 1 (W: warm and fresh).
+    thorough: see THOROUGH_NOTE."""
     if tier == "quick":
-        return [(n, 2) for n in QUICK + PAIRS + DPAIRS + IPAIRS + XPAIRS + KPAIRS] + [(n, 1) for n in GPAIRS + EPAIRS]
-    two = set(RINGS) | set(TRIPLES) | set(GPAIRS) | set(EPAIRS) | {"K3:ring"}
-    return [(n, 2 if n in two else 3) for n in H]
+        w = [n for n in WTRIPLES if n.startswith("W:opposite")]
+        warm = [(n, 2) for n in QUICK + PAIRS + DPAIRS + IPAIRS + XPAIRS + KPAIRS] + [(n, 1) for n in GPAIRS + EPAIRS + w]
+        fresh = [(n, 2) for n in fresh_of([n for n in PAIRS if xfer_pair(n)])]
+        fresh += [(n, 1) for n in fresh_of(["S5-opposite-transfers", "S5r-opposite-transfers-ranks-reversed"] + KPAIRS + w)]
+        return warm + fresh
+    two = set(RINGS) | set(TRIPLES) | set(GPAIRS) | set(EPAIRS) | set(WTRIPLES) | {"K3:ring"}
+    warm = [(n, 2 if n in two else 3) for n in BASE]
+    fresh = [(n, 2) for n in fresh_of([n for n in BASE if two_store(n)])]
+    return warm + fresh
 
 
 class _Null(io.TextIOBase):
@@ -524,13 +607,7 @@ def interleavings(lens):
     return sorted(set(itertools.permutations(ids)))
 
 
-def sequential_outcomes(cfgs, threads, split, setup=(), order=None):
-    """Reference: the implementation itself, run sequentially in every order of the calls.
-    split=True: a transfer counts as two atomic steps (debit, later credit).
-    Every call is guarded: a call that raises has ("raised", class) as its return value in that order's outcome;
-    a call that can never return (re-acquires a lock its own thread left held) makes the whole reference
-    {("sequential-hang", ...)}, a failing setup call {("sequential-setup", ...)} (judged as such)."""
-    outs = set()
+def _steps_of(threads, split):
     steps = []
     for t in threads:
         ts = []
@@ -541,12 +618,17 @@ def sequential_outcomes(cfgs, threads, split, setup=(), order=None):
             else:
                 ts.append(op)
         steps.append(ts)
-    deferred = deferred_of(threads)
-    for order_ in interleavings([len(t) for t in steps]):
+    return steps
+
+
+def _seq_order(cfgs, steps, order_, setup, order, deferred):
+    """one sequential order of the calls on newly made stores: ("out", outcome), ("skip",) if it is not an order of
+    the calls (a call would have to wait for a store), or ("all", verdict) if the whole reference is that verdict"""
+    with contextlib.redirect_stdout(_Null()):
         stores = mk_stores(cfgs, order, deferred)
         bad = run_setup(stores, setup)
         if bad:
-            return {("sequential-setup", f"{bad[0]} -> {bad[1]}")}
+            return ("all", ("sequential-setup", f"{bad[0]} -> {bad[1]}"))
         sink = ATP_Store(budget=10**6, gtp_budget=10**6, nadh_reserve=10**6, silent=True)
         sink.atp = sink.gtp = sink.nadh = 0
         install_locks(sink)
@@ -557,11 +639,11 @@ def sequential_outcomes(cfgs, threads, split, setup=(), order=None):
             op = steps[tid][pos[tid]]
             pos[tid] += 1
             if any(n not in stores for n in stores_named(op)):
-                break  # not an order of the calls: this one waits until the stores it names are constructed
+                return ("skip",)  # this call waits until the stores it names are constructed
             if op[0] == "construct":
                 r = guarded(apply, stores, op)
                 if is_hang(r) or is_raised(r):
-                    return {("sequential-setup", f"{op} -> {r}")}
+                    return ("all", ("sequential-setup", f"{op} -> {r}"))
                 rets[tid].append(r)
             elif op[0] == "xfer_debit":
                 r = pend[tid] = guarded(stores[op[1]].transfer_to, sink, op[3], ET[op[4]])
@@ -576,13 +658,45 @@ def sequential_outcomes(cfgs, threads, split, setup=(), order=None):
                 r = guarded(apply, stores, op)
                 rets[tid].append(r)
             if is_hang(r):
-                return {("sequential-hang", f"{op}: {r[1]}")}
-        else:
-            outs.add((tuple(tuple(r) for r in rets), final(stores)))
+                return ("all", ("sequential-hang", f"{op}: {r[1]}"))
+        return ("out", (tuple(tuple(r) for r in rets), final(stores)))
+
+
+def sequential_outcomes(cfgs, threads, split, setup=(), order=None, fresh=False):
+    """Reference: the implementation itself, run sequentially in every order of the calls.
+    split=True: a transfer counts as two atomic steps (debit, later credit).
+    fresh=True: every order starts from the just-imported library state (its stores are the first ones created).
+    Every call is guarded: a call that raises has ("raised", class) as its return value in that order's outcome;
+    a call that can never return (re-acquires a lock its own thread left held) makes the whole reference
+    {("sequential-hang", ...)}, a failing setup call {("sequential-setup", ...)} (judged as such)."""
+    outs = set()
+    steps = _steps_of(threads, split)
+    deferred = deferred_of(threads)
+    for order_ in interleavings([len(t) for t in steps]):
+        args = (cfgs, steps, order_, tuple(setup), order, deferred)
+        r = common.fresh_call(__name__, "_seq_order", *args) if fresh else _seq_order(*args)
+        if r[0] == "all":
+            return {r[1]}
+        if r[0] == "out":
+            outs.add(r[1])
     return outs
 
 
-def make_factory(name):
+def twin_locking(name):
+    """getter_takes_lock for the stores a harness constructs inside its threads, decided on sequentially constructed
+    twins (a store built inside a thread cannot be probed there)"""
+    cfgs, threads = H[name]
+    deferred = deferred_of(threads)
+    if not deferred:
+        return {}
+    with contextlib.redirect_stdout(_Null()):
+        twins = guarded(mk_stores, {n: cfgs[n] for n in deferred})
+        return {n: getter_takes_lock(s) for n, s in twins.items()} if isinstance(twins, Stores) else {}
+
+
+def make_factory(name, twins=None):
+    """twins: twin_locking(name) decided elsewhere (fresh-state runs: nothing may be constructed before the
+    harness's own stores)"""
     cfgs, threads = H[name]
     order = OPTS.get(name, {}).get("order")
     do = call if OPTS.get(name, {}).get("raising_cb") else apply
@@ -619,10 +733,8 @@ def make_factory(name):
             return (rets, final(stores))
 
         locking = {n: getter_takes_lock(s) for n, s in stores.items()}
-        if deferred:  # decided on sequentially constructed twins (a store built inside a thread cannot be probed there)
-            twins = guarded(mk_stores, {n: cfgs[n] for n in deferred})
-            if isinstance(twins, Stores):
-                locking.update({n: getter_takes_lock(s) for n, s in twins.items()})
+        if deferred:
+            locking.update(twin_locking(name) if twins is None else twins)
 
         def invariant():
             # what user code can see at this moment: the public balance attributes and the debt getter (lock-free in
@@ -680,9 +792,10 @@ def judge_factory(name):
     setup = SETUP.get(name, ())
     opts = OPTS.get(name, {})
     order = opts.get("order")
+    fresh = bool(opts.get("fresh"))
     with contextlib.redirect_stdout(_Null()):
-        strict = sequential_outcomes(cfgs, threads, split=False, setup=setup, order=order)
-        split = sequential_outcomes(cfgs, threads, split=True, setup=setup, order=order)
+        strict = sequential_outcomes(cfgs, threads, split=False, setup=setup, order=order, fresh=fresh)
+        split = sequential_outcomes(cfgs, threads, split=True, setup=setup, order=order, fresh=fresh)
         start = mk_stores(cfgs, order, deferred_of(threads))
         run_setup(start, setup)
         for n in deferred_of(threads):
@@ -762,12 +875,33 @@ def judge_factory(name):
     return judge, strict, split
 
 
+def _fresh_schedule(base, prefix, opcodes, twins):
+    """runs inside common.fresh_call: one schedule of harness `base`, whose stores are the first objects the just
+    imported library creates"""
+    make = make_factory(base, twins)
+    with contextlib.redirect_stdout(_Null()):
+        return sched.run_schedule(make, tuple(prefix), trace_files=TRACE, opcodes=opcodes, invariant=_invariant_of(make))
+
+
+def schedule_runner(name):
+    """run_schedule for the library state the harness asks for: None (this process, warm) or a function running
+    each schedule from the fresh state"""
+    base = OPTS.get(name, {}).get("fresh")
+    if not base:
+        return None
+    twins = twin_locking(base)
+
+    def run(_make, prefix, opcodes=False, **_kw):
+        return common.fresh_call(__name__, "_fresh_schedule", base, tuple(prefix), bool(opcodes), twins)
+    return run
+
+
 def run_harness(name, bound, opcodes=False, nproc=None):
     make = make_factory(name)
     judge, strict, split = judge_factory(name)
     with contextlib.redirect_stdout(_Null()):  # BioAgent.express / silent=False print; one process-wide redirect
         res = sched.explore(make, bound, judge, nproc=nproc, trace_files=TRACE, opcodes=opcodes,
-                            invariant=_invariant_of(make))
+                            invariant=_invariant_of(make), run=schedule_runner(name))
     res["strict"] = len(strict)
     res["split"] = len(split)
     # schedules whose outcome no sequential order produces (violations unless the harness is advisory or only a
@@ -817,7 +951,7 @@ def crossing_transfers(cfg, setup, ops):
 
 
 def _is_small(name):
-    return name[:2] in ("P:", "G:", "D:", "I:", "T:", "X:", "E:", "K:")
+    return name[:2] in ("P:", "G:", "D:", "I:", "T:", "X:", "E:", "K:", "W:")
 
 
 def run(ctx):
@@ -861,6 +995,10 @@ def run(ctx):
         per[name] = {"schedules": res["executions"], "distinct_outcomes": len(res["outcomes"]),
                      "sequential_outcomes": res["strict"], "max_choice_points": res["max_choice_points"],
                      "max_preemptions": res["max_preemptions"], "preemption_bound": b, "capped": res["capped"]}
+        if name.endswith(FRESH):
+            per[name]["library_state"] = "fresh import"
+            ctx.stats["fresh-state:harnesses"] += 1
+            ctx.stats["fresh-state:schedules"] += res["executions"]
         for o in res["outcomes"]:
             ctx.outcomes.add((name, o))
         for k, what, case in res["violations"]:
@@ -914,8 +1052,11 @@ def run(ctx):
              "operation kinds from several start states (P: ATP mid state; G: three currencies, debt carried, silent=False, "
              "state-change callback, getters; D: starving/dormant with priorities; X: raising state-change callback; "
              "E: class and message of the exception the callback raises; I: apply_debt_interest, advisory; K: each thread "
-             "constructs its own store as a scheduled step, publishes it, waits for its peer's, then transfers), every transfer||transfer pair of a family under both creation orders of "
-             "the two stores (@r), "
+             "constructs its own store as a scheduled step, publishes it, waits for its peer's, then transfers; W: two "
+             "transfers between two stores + a third thread working on one of them), every transfer||transfer pair of a family under both creation orders of "
+             "the two stores (@r); library state: warm (other stores were created before) and @fresh (the harness's stores "
+             "are the first objects created after a fresh import of the library; every schedule and every sequential "
+             "reference order restarts from that state) for the two-store families; "
              "three-thread multisets T* (thorough); distinct = distinct (harness, outcome) pairs; "
              "'states' = sum over harnesses of the maximum number of scheduling choice points in one execution",
         exhaustive=all(p["capped"] == 0 for p in per.values()),
@@ -924,11 +1065,15 @@ def run(ctx):
         preemption_bound=bound,
         op_kinds={"P": len(PAIR_OPS), "G": len(G_OPS), "D": len(D_OPS), "X": len(X_OPS), "I": len(I_OPS), "T": len(T_KINDS)},
         construction_harnesses=KPAIRS + (["K3:ring"] if ctx.tier == "thorough" else []),
+        fresh_state_harnesses=sorted(n for n in per if n.endswith(FRESH)),
         callback_exception_classes=list(E_CLASSES),
     )
     ctx.assumptions += [
         "CoopLock has the mutual-exclusion semantics of threading.Lock/RLock; C-level atomicity of a single bytecode is trusted",
         "interleavings are explored at source-line granularity (bytecode granularity on 4 harnesses in the thorough tier)",
+        "fresh library state = the state right after `import operon_ai` in a new interpreter state of the library modules "
+        "(operon_ai* purged from sys.modules and re-imported in a server process, each run in a fork of it); state kept "
+        "outside the library's own modules (environment, files) is not reset",
         "regeneration_rate > 0 (a real timer thread sleeping 1 s) is not constructed; the background thread is modelled by an "
         "explicit regenerate() thread",
     ]
@@ -941,8 +1086,8 @@ def replay(ctx, case):
     outs = []
     for _ in range(2):
         with contextlib.redirect_stdout(_Null()):
-            ex, outcome = sched.run_schedule(make, tuple(case["schedule"]), trace_files=TRACE, opcodes=bool(case.get("opcodes")),
-                                             invariant=_invariant_of(make))
+            ex, outcome = (schedule_runner(name) or sched.run_schedule)(
+                make, tuple(case["schedule"]), trace_files=TRACE, opcodes=bool(case.get("opcodes")), invariant=_invariant_of(make))
         outs.append((outcome, ex.deadlock))
     if repr(outs[0]) != repr(outs[1]):
         raise common.HarnessError(f"replay not deterministic: {outs}")
